@@ -16,3 +16,25 @@ PROPS = {
         "must_hit": {"quick": ["connect-during-reload", "request-overlapped-reload"], "thorough": ["connect-during-reload", "request-overlapped-reload", "handler-parked-during-reload"]},
     },
 }
+
+DST = "deterministic simulation with fault injection (seeded schedule/fault search, synctest bubble, simnet)"
+
+MANIFEST_TEXT = {
+    "C07": {
+        "text": "seeded search over interleavings of concurrent client connections with histories of 1-6 reloads (valid and failing at each stage) against the real Start/Restart/Stop, real httpserver and net/http, with the socket hand-over observed at kernel-identity level; regular-register oracle (old or new during an overlapping reload, exactly new after a successful reload returned, never the target of a failed reload), no refused/reset/truncated connection, bounded liveness after faults stop. Evidence, not proof: sampled schedules within the stated bounds.",
+        "design_ref": "DESIGN.md 6 C07",
+        "note": "TCP data path is simnet (accept queue shared by dup'ed descriptors, queued connections reset when the last descriptor closes); one known finding (net/http drops a connection whose request head completes after Shutdown began) is listed in known_findings.jsonl",
+        "technique": DST + "; oracle: regular register over config versions + socket-table invariants",
+    },
+}
+
+NOT_APPLICABLE = {
+    "C01": "routing is a pure lookup on immutable data built once per server; no schedule, clock, fault or history in the statement for a simulator to vary",
+    "C02": "quantified over path spellings and tree layouts only; with a fault-free disk the response is a pure function of them - input generation, not simulation",
+    "C03": "pure function of (directive set, request); its only shared state (htpasswd cache) matters through load histories and is exercised under C08",
+    "C06": "TLS parameter selection is a pure map lookup on (site set, SNI, Host); the handshake's timing plays no role in the statement",
+    "C09": "permutation invariance of a pure function of the token map (executeDirectives iterates a fixed list); no schedule, clock or fault",
+    "C10": "parser totality and round-trip are input-quantified; no I/O timing, concurrency or fault in the statement",
+    "C11": "setup totality is input-quantified; the only multi-load effect found (htpasswd mutex) is a C08 history",
+    "C15": "qualification and redirect synthesis are pure functions of addresses and tls arguments",
+}
